@@ -402,7 +402,7 @@ func ParseFile(b []byte, opt ParseOptions) (*File, error) {
 		if len(cols) != len(leaves) {
 			f.bad("rg.columns", "row group %d has %d column chunks for %d schema leaves", gi, len(cols), len(leaves))
 		}
-		var sumUncomp int64
+		var sumUncomp, sumComp int64
 		for ci, cv := range cols {
 			if cv.S == nil {
 				return nil, fmt.Errorf("row group %d column %d is not a struct", gi, ci)
@@ -452,6 +452,7 @@ func ParseFile(b []byte, opt ParseOptions) (*File, error) {
 				f.bad("chunk.data_page_offset", "%s: data_page_offset missing", where)
 			}
 			sumUncomp += tu
+			sumComp += tc
 			if fo, _ := cv.S.I(2); fo != 0 && fo != dpo {
 				// file_offset: lenient (0 or the chunk start)
 				f.bad("chunk.file_offset", "%s: file_offset %d is neither 0 nor the chunk start %d", where, fo, dpo)
@@ -535,8 +536,11 @@ func ParseFile(b []byte, opt ParseOptions) (*File, error) {
 				f.bad("rg.num_rows", "%s: holds %d records, row group num_rows is %d", where, recs, rows)
 			}
 		}
-		if tb, _ := rv.S.I(2); tb != sumUncomp {
-			f.bad("rg.total_byte_size", "row group %d: total_byte_size %d, sum of total_uncompressed_size is %d", gi, tb, sumUncomp)
+		// The IDL defines total_byte_size over the uncompressed column data;
+		// writers in the wild (and this library) record the compressed sum.
+		// Either is accepted; anything else is a wrong size.
+		if tb, _ := rv.S.I(2); tb != sumUncomp && tb != sumComp {
+			f.bad("rg.total_byte_size", "row group %d: total_byte_size %d is neither the sum of total_uncompressed_size (%d) nor of total_compressed_size (%d)", gi, tb, sumUncomp, sumComp)
 		}
 		if rows <= 0 {
 			f.bad("rg.empty", "row group %d has num_rows %d", gi, rows)
